@@ -13,7 +13,7 @@
     X ...                                  (operation the harness could not execute: skipped)
   Output lines:
     MISMATCH line=<n> case=<k> what=<observable> impl=<...> model=<...>
-    SPECFAIL line=<n> case=<k> clause=<name> t=<t> impl=<0|1> expected=<0|1> corr_ok=<0|1> [stride_dst=<0|1>]
+    SPECFAIL line=<n> case=<k> clause=<name> t=<t> impl=<0|1> expected=<0|1> corr_ok=<0|1>
     BADLINE line=<n>
     STATS cases=.. updates=.. queries=.. ...
 -/
@@ -52,6 +52,8 @@ structure DSt where
   scripts : Nat := 0
   calSegs : Nat := 0
   calChecked : Nat := 0
+  tzChecked : Nat := 0
+  strideDst : Nat := 0       -- calendar evaluations in which a stride > 1 is counted across a UTC-offset change
   noops : Nat := 0
   nonClear : Nat := 0
   withInc : Nat := 0
@@ -123,7 +125,12 @@ def handle (d : DSt) (n : Nat) (line : String) : IO DSt := do
   | "X" :: _ => return d
   | ["Z", name, tr] =>
     match (splitOnChar tr ',').mapM parseSeg? with
-    | some l => return { d with tz := l, tzName := name }
+    | some l =>
+      -- the theorems' assumptions on the time-zone parameter, checked on the probed offsets (2023-01-01 … 2032-01-01)
+      if !tzOkOn l 19358 22645 then
+        IO.println s!"MISMATCH line={n} case={d.caseNo} what=tz-assumption impl={name} model=TzOk/TzDrift"
+        return { d with tz := l, tzName := name, mismatches := d.mismatches + 1 }
+      return { d with tz := l, tzName := name, tzChecked := d.tzChecked + 1 }
     | none => IO.println s!"BADLINE line={n}"; return d
   | "C" :: _ =>
     let d := closeCase d
@@ -194,9 +201,10 @@ def handle (d : DSt) (n : Nat) (line : String) : IO DSt := do
             d := { d with dayForms := bumpForm d.dayForms (dayFormName k) }
           match calSpec d.tz rg fb fe o with
           | some (c, t) =>
-            IO.println s!"SPECFAIL line={n} case={d.caseNo} clause={c} t={t} impl=- expected=- corr_ok={showBool !d.caseMismatch} stride_dst={showBool (strideAcrossDst d.tz rg fb fe)}"
+            IO.println s!"SPECFAIL line={n} case={d.caseNo} clause={c} t={t} impl=- expected=- corr_ok={showBool !d.caseMismatch}"
             d := { d with specfails := d.specfails + 1 }
           | none => d := { d with calChecked := d.calChecked + 1 }
+          if strideAcrossDst d.tz rg fb fe then d := { d with strideDst := d.strideDst + 1 }
         | _, _, _, _ => pure ()
         -- statistics
         let pre := if cl then [] else p.impl.segs
@@ -264,9 +272,10 @@ def handle (d : DSt) (n : Nat) (line : String) : IO DSt := do
         d := { d with calSegs := d.calSegs + o.length }
         match calSpec d.tz rg b e o with
         | some (c, t) =>
-          IO.println s!"SPECFAIL line={n} case={d.caseNo} clause={c} t={t} impl=- expected=- corr_ok={showBool !d.caseMismatch} stride_dst={showBool (strideAcrossDst d.tz rg b e)}"
+          IO.println s!"SPECFAIL line={n} case={d.caseNo} clause={c} t={t} impl=- expected=- corr_ok={showBool !d.caseMismatch}"
           d := { d with specfails := d.specfails + 1 }
         | none => d := { d with calChecked := d.calChecked + 1 }
+        if strideAcrossDst d.tz rg b e then d := { d with strideDst := d.strideDst + 1 }
       | none => pure ()
       return d
     | _, _, _ => IO.println s!"BADLINE line={n}"; return d
@@ -277,4 +286,4 @@ def main : IO Unit := do
   let d ← foldLines stdin handle ({} : DSt)
   let d := closeCase d
   let forms := " ".intercalate (d.dayForms.map fun p => s!"form_{p.1}={p.2}")
-  IO.println s!"STATS cases={d.caseNo} updates={d.updates} queries={d.queries} scripts={d.scripts} cal_segments={d.calSegs} cal_checked={d.calChecked} noops={d.noops} non_clearing={d.nonClear} with_includes={d.withInc} with_excludes={d.withExc} cuts={d.splitN} shared_boundary_updates={d.sharedBoundary} inside_yes={d.insideYes} inside_no={d.insideNo} outside_window={d.outsideWindow} nontrivial={d.nontrivial} mismatches={d.mismatches} specfails={d.specfails} {forms}"
+  IO.println s!"STATS cases={d.caseNo} updates={d.updates} queries={d.queries} scripts={d.scripts} cal_segments={d.calSegs} cal_checked={d.calChecked} tz_assumptions_checked={d.tzChecked} stride_across_offset_change={d.strideDst} noops={d.noops} non_clearing={d.nonClear} with_includes={d.withInc} with_excludes={d.withExc} cuts={d.splitN} shared_boundary_updates={d.sharedBoundary} inside_yes={d.insideYes} inside_no={d.insideNo} outside_window={d.outsideWindow} nontrivial={d.nontrivial} mismatches={d.mismatches} specfails={d.specfails} {forms}"
